@@ -753,6 +753,10 @@ func (c *Ctx) inputROFrom(fn *ssa.Function, roots map[ssa.Value]bool, depth int,
 			}
 		}
 	}
+	// retention through a carrier: an object built around the input (the typed parse error keeps it in its Input field)
+	// is put into package-level state — a result cache, a "last error" — and read back by a later call, after the
+	// caller has overwritten the bytes
+	c.carrierRetained(fn, alias)
 	for _, b := range fn.Blocks {
 		for _, in := range b.Instrs {
 			switch x := in.(type) {
@@ -1006,4 +1010,218 @@ func calleeVarName(v ssa.Value) string {
 		}
 	}
 	return "function value"
+}
+
+// mayHoldBytes: a value of type t can hold, directly or inside, a byte slice (or a value of a type parameter that may
+// be one, or an interface value whose dynamic type is not known).
+func mayHoldBytes(t types.Type, depth int) bool {
+	if depth > 5 {
+		return true
+	}
+	switch u := t.Underlying().(type) {
+	case *types.Basic:
+		return false
+	case *types.Slice:
+		if b, ok := u.Elem().Underlying().(*types.Basic); ok {
+			return b.Kind() == types.Uint8
+		}
+		return mayHoldBytes(u.Elem(), depth+1)
+	case *types.Array:
+		return mayHoldBytes(u.Elem(), depth+1)
+	case *types.Pointer:
+		return mayHoldBytes(u.Elem(), depth+1)
+	case *types.Map:
+		return mayHoldBytes(u.Key(), depth+1) || mayHoldBytes(u.Elem(), depth+1)
+	case *types.Struct:
+		for i := 0; i < u.NumFields(); i++ {
+			if mayHoldBytes(u.Field(i).Type(), depth+1) {
+				return true
+			}
+		}
+		return false
+	case *types.Interface:
+		return true
+	case *types.Signature, *types.Chan:
+		return true
+	}
+	if _, ok := t.(*types.TypeParam); ok {
+		return true
+	}
+	return false
+}
+
+// carries: v holds (a view of) one of the values in src — the input bytes — rather than a copy: v is one of them, a
+// re-typing, boxing or part of one, an object whose fields were stored from one, or the result of a function of the
+// module that returns such an object built from the argument that carries. A conversion to string copies.
+func (c *Ctx) carries(v ssa.Value, src map[ssa.Value]bool, depth int, seen map[ssa.Value]bool) bool {
+	if v == nil || depth > 12 || seen[v] {
+		return false
+	}
+	if src[v] && mayHoldBytes(v.Type(), 0) {
+		return true
+	}
+	if !mayHoldBytes(v.Type(), 0) {
+		return false
+	}
+	seen[v] = true
+	switch x := v.(type) {
+	case *ssa.Convert:
+		if b, ok := x.Type().Underlying().(*types.Basic); ok && b.Info()&types.IsString != 0 {
+			return false
+		}
+		return c.carries(x.X, src, depth+1, seen)
+	case *ssa.MultiConvert:
+		if b, ok := x.Type().Underlying().(*types.Basic); ok && b.Info()&types.IsString != 0 {
+			return false
+		}
+		return c.carries(x.X, src, depth+1, seen)
+	case *ssa.ChangeType:
+		return c.carries(x.X, src, depth+1, seen)
+	case *ssa.ChangeInterface:
+		return c.carries(x.X, src, depth+1, seen)
+	case *ssa.MakeInterface:
+		return c.carries(x.X, src, depth+1, seen)
+	case *ssa.Slice:
+		return c.carries(x.X, src, depth+1, seen)
+	case *ssa.Extract:
+		if call, ok := x.Tuple.(*ssa.Call); ok {
+			return c.callCarries(call, x.Index, src, depth+1, seen)
+		}
+		return c.carries(x.Tuple, src, depth+1, seen)
+	case *ssa.Phi:
+		for _, e := range x.Edges {
+			if c.carries(e, src, depth+1, seen) {
+				return true
+			}
+		}
+	case *ssa.UnOp:
+		if x.Op == token.MUL {
+			return c.carries(x.X, src, depth+1, seen) // a load: what the cell (or the object) holds
+		}
+	case *ssa.FieldAddr:
+		return c.carries(x.X, src, depth+1, seen)
+	case *ssa.Field:
+		return c.carries(x.X, src, depth+1, seen)
+	case *ssa.Alloc:
+		// a local or a composite literal: what is stored into it or into its fields
+		if x.Referrers() != nil {
+			for _, r := range *x.Referrers() {
+				switch u := r.(type) {
+				case *ssa.Store:
+					if u.Addr == ssa.Value(x) && c.carries(u.Val, src, depth+1, seen) {
+						return true
+					}
+				case *ssa.FieldAddr:
+					if u.Referrers() != nil {
+						for _, r2 := range *u.Referrers() {
+							if st, ok := r2.(*ssa.Store); ok && st.Addr == ssa.Value(u) && c.carries(st.Val, src, depth+1, seen) {
+								return true
+							}
+						}
+					}
+				}
+			}
+		}
+	case *ssa.Call:
+		return c.callCarries(x, -1, src, depth+1, seen)
+	}
+	return false
+}
+
+// callCarries: result `index` (-1: the single result) of the call holds one of src.
+func (c *Ctx) callCarries(call *ssa.Call, index int, src map[ssa.Value]bool, depth int, seen map[ssa.Value]bool) bool {
+	callee := c.StaticCallee(&call.Call)
+	if callee == nil {
+		return false
+	}
+	name := origin(callee).String()
+	if !inRepo(callee) {
+		// fmt.Errorf wrapping an error that carries (not one that prints the bytes: formatting copies)
+		if name == "fmt.Errorf" && len(call.Call.Args) == 2 {
+			for _, a := range varargs(call.Call.Args[1]) {
+				if mi, ok := a.(*ssa.MakeInterface); ok && isErrorType(mi.X.Type()) || a != nil && isErrorType(a.Type()) {
+					if c.carries(a, src, depth+1, seen) {
+						return true
+					}
+				}
+			}
+		}
+		return false
+	}
+	g := origin(callee)
+	for ai, a := range call.Call.Args {
+		if ai >= len(g.Params) || !c.carries(a, src, depth+1, map[ssa.Value]bool{}) {
+			continue
+		}
+		inner := map[ssa.Value]bool{g.Params[ai]: true}
+		for _, b := range g.Blocks {
+			ret, ok := b.Instrs[len(b.Instrs)-1].(*ssa.Return)
+			if !ok {
+				continue
+			}
+			for ri, rv := range ret.Results {
+				if index >= 0 && ri != index {
+					continue
+				}
+				if c.carries(rv, inner, depth+1, map[ssa.Value]bool{}) {
+					return true
+				}
+			}
+		}
+	}
+	return false
+}
+
+// carrierRetained: reports stores of a carrier of the input (see carries) into package-level state.
+func (c *Ctx) carrierRetained(fn *ssa.Function, alias map[ssa.Value]bool) {
+	fromGlobal := func(v ssa.Value) *ssa.Global {
+		for i := 0; i < 6; i++ {
+			switch y := v.(type) {
+			case *ssa.UnOp:
+				if y.Op == token.MUL {
+					if g := rootGlobal(y.X); g != nil {
+						return g
+					}
+					v = y.X
+					continue
+				}
+			case *ssa.FieldAddr:
+				v = y.X
+				continue
+			case *ssa.Global:
+				return y
+			}
+			break
+		}
+		return nil
+	}
+	for _, b := range fn.Blocks {
+		for _, in := range b.Instrs {
+			var g *ssa.Global
+			var vals []ssa.Value
+			switch x := in.(type) {
+			case *ssa.Store:
+				if _, isSlice := x.Val.Type().Underlying().(*types.Slice); isSlice {
+					continue // slices themselves: the retention rule below
+				}
+				g, vals = rootGlobal(x.Addr), []ssa.Value{x.Val}
+			case *ssa.MapUpdate:
+				g, vals = fromGlobal(x.Map), []ssa.Value{x.Key, x.Value}
+			case *ssa.Call:
+				// (*sync.Map).Store / (*atomic.Value).Store on package-level state
+				if f := x.Call.StaticCallee(); f != nil && !inRepo(f) && (f.Name() == "Store" || f.Name() == "Swap" || f.Name() == "LoadOrStore" || f.Name() == "CompareAndSwap") && len(x.Call.Args) >= 2 {
+					g, vals = fromGlobal(x.Call.Args[0]), x.Call.Args[1:]
+				}
+			}
+			if g == nil {
+				continue
+			}
+			for _, v := range vals {
+				if c.carries(v, alias, 0, map[ssa.Value]bool{}) {
+					c.add("violated", "C17.ro", fn, in.Pos(), "an object that holds the parser's input (an error keeping it, a struct around it) is stored in package-level "+g.Name()+": what a later call reads back there shows whatever the caller has written into its buffer since")
+					break
+				}
+			}
+		}
+	}
 }
